@@ -771,6 +771,8 @@ void campaign(Ctx& ctx)
 				ctx.eval(c);
 				break;
 			}
+			// measured, not intended: does this scenario really have segments waiting to be re-sent at some boundary?
+			{ int mx = 0; for (int v : base.resend_pending_at) mx = std::max(mx, v); if (mx > 0 && ctx.opt.worker == 0) ctx.label(fmt("scn_%d_has_resend_pending", id)); }
 			int stride = 1;
 			if (!thorough) stride = base.boundaries > 1500 ? 3 : 1;
 			if (stride != 1) complete = false;
